@@ -44,7 +44,25 @@ func vhOnWalk(i0 int, pos0 float64, d []float64, x float64) bool {
 	return false
 }
 
+// vhModBounded is math.Mod for y > 0 and |x| <= 4y (exact in rational arithmetic); it replaces
+// math.Mod in the symbolic run only (natively the real math.Mod runs).
+func vhModBounded(x, y float64) float64 {
+	r := x
+	for k := 0; k < 4; k++ {
+		if r <= -y {
+			r += y
+		}
+	}
+	for k := 0; k < 4; k++ {
+		if r >= y {
+			r -= y
+		}
+	}
+	return r
+}
+
 func VH_C05_dashStart_Q() {
+	vStub("math.Mod", vhModBounded)
 	n := 2 * vChoose(1, 1+vTier())
 	d := make([]float64, n)
 	P := 0.0
